@@ -88,4 +88,4 @@ for case in req.get("cases", []):
             res.append(one(case))
     except Exception as e:  # noqa
         res.append({"id": case["id"], "error": type(e).__name__ + ": " + str(e)[:300]})
-print(json.dumps({"mode": mode, "results": res}))
+print(json.dumps({"mode": mode, "results": res}, default=__import__("_util").jdefault))
